@@ -418,7 +418,7 @@ func (c *Ctx) judgeC12(ob *Obj, op *Op, obs *Outcome) {
 	case unique:
 		exact("EXACT/add-after-exec/distinct-Y", &ref)
 	default:
-		field("FIELD/add-after-exec", &ref)
+		field("FIELD(ties: ok-flag and panics judged, region informational)/add-after-exec", &ref)
 	}
 	if isEngine && op.has("ref-merged") && !ob.addAfterExec {
 		r2 := c.reference(ob, op, refMerged)
@@ -433,7 +433,7 @@ func (c *Ctx) judgeC12(ob *Obj, op *Op, obs *Outcome) {
 			if unique {
 				exact("EXACT/one-call-per-kind/distinct-Y", &r3)
 			} else {
-				field("FIELD/one-call-per-kind", &r3)
+				field("FIELD(ties: ok-flag and panics judged, region informational)/one-call-per-kind", &r3)
 			}
 			c.fire("add-reorder")
 		}
@@ -498,7 +498,7 @@ func (c *Ctx) runScript(ops []Op) []Outcome {
 		}
 		out.k64, out.kD, out.ko64, out.koD = nil, nil, nil, nil
 		outs[i] = out
-		if op.has("repeat-prev") && i > 0 && ops[i-1].K == op.K && ops[i-1].O == op.O && ob != nil && !ob.dead {
+		if op.has("repeat-prev") && i > 0 && sameCall(&ops[i-1], op) && ob != nil && !ob.dead {
 			// the same call on the same object with the same arguments, into a
 			// fresh solution variable: an execute does not change what the
 			// object was given, so the answer must be the same
@@ -516,4 +516,29 @@ func (c *Ctx) runScript(ops []Op) []Outcome {
 	}
 	c.verifyKept(class)
 	return outs
+}
+
+// sameCall: the same operation kind on the same object with the same
+// arguments (the minimiser may have removed the original of a repeat: the
+// check then simply does not apply).
+func sameCall(a, b *Op) bool {
+	if a.K != b.K || a.O != b.O || len(a.I) != len(b.I) || len(a.F) != len(b.F) || len(a.A) != len(b.A) {
+		return false
+	}
+	for i := range a.I {
+		if a.I[i] != b.I[i] {
+			return false
+		}
+	}
+	for i := range a.F {
+		if math.Float64bits(a.F[i]) != math.Float64bits(b.F[i]) {
+			return false
+		}
+	}
+	for i := range a.A {
+		if a.A[i] != b.A[i] {
+			return false
+		}
+	}
+	return true
 }
